@@ -36,6 +36,7 @@ type Profile struct {
 	NumericKeys  bool // allow N / B typed keys
 	FinalObserve bool
 	DelBoundary  int // percent of pages ops that delete the boundary item
+	RichValues   bool // items carry deep value trees of all ten types incl. boundary members
 }
 
 type HistGen struct {
@@ -48,7 +49,7 @@ type HistGen struct {
 }
 
 var hashVals = []string{"a", "b", "c", "p", "q"}
-var hashValsDot = []string{"a", "b", "a.b", "a\\", "a\\.b", "b.c", "a.", ".", "", "c"}
+var hashValsDot = []string{"a", "b", "a.b", "a\\", "a\\.b", "b.c", "a.", ".", "\\", "c"}
 var rangeVals = []string{"a", "b", "c", "d", "e", "ab", "b.c", "c", "x"}
 var rangeValsNum = []string{"1", "2", "3", "10", "9", "5", "7"}
 var gVals = []string{"x", "y", "z", "x.y", "w"}
@@ -156,6 +157,30 @@ func (g *HistGen) genItemFor(t *TableSpec) Item {
 	if g.r.Chance(10) {
 		add("nul", AV{T: "NULL"})
 	}
+	if g.p.RichValues {
+		ro := ValOpts{ExactNums: g.r.Chance(50), AllowEmpty: true, MaxDepth: 4}
+		for i := 0; i < 1+g.r.Intn(4); i++ {
+			add(fmt.Sprintf("x%d", g.r.Intn(6)), genVal(g.r, 0, ro))
+		}
+		if g.r.Chance(30) {
+			add("deep", genOfType(g.r, pick(g.r, []string{"L", "M"}), 0, ro))
+		}
+		if g.r.Chance(20) {
+			add("emptyS", AV{T: "S", V: []byte{}})
+		}
+		if g.r.Chance(15) {
+			add("emptyL", AV{T: "L", L: []AV{}})
+		}
+		if g.r.Chance(15) {
+			add("emptyM", AV{T: "M", M: Item{}})
+		}
+		if g.r.Chance(10) {
+			add("emptyB", AV{T: "B", V: []byte{}})
+		}
+		if g.r.Chance(15) {
+			add("ff", AV{T: "BOOL", Bool: false})
+		}
+	}
 	return it
 }
 
@@ -259,25 +284,31 @@ func (g *HistGen) createTable(name string) {
 	}
 }
 
+func pathOp(name string) *Operand { return &Operand{Kind: "path", Root: []byte(name)} }
+func valOp(v AV) *Operand         { return &Operand{Kind: "val", Val: v} }
+
 // condition on the target item, built so that it is true about half of the time
-func (g *HistGen) condFor(t *TableSpec, ctx *ExprCtx) string {
+func (g *HistGen) condTree(t *TableSpec) *Cond {
+	num := func() AV { return AV{T: "N", V: []byte(pick(g.r, simpleNumerals))} }
 	switch g.r.Intn(8) {
 	case 0:
-		return "attribute_exists(" + ctx.name([]byte(t.Hash[0])) + ")"
+		return &Cond{K: "fn", Fn: "attribute_exists", Args: []Operand{*pathOp(t.Hash[0])}}
 	case 1:
-		return "attribute_not_exists(" + ctx.name([]byte(t.Hash[0])) + ")"
+		return &Cond{K: "fn", Fn: "attribute_not_exists", Args: []Operand{*pathOp(t.Hash[0])}}
 	case 2:
-		return ctx.name([]byte("v")) + " = " + ctx.value(S(pick(g.r, vVals)))
+		return &Cond{K: "cmp", Op: "=", L: pathOp("v"), R: valOp(S(pick(g.r, vVals)))}
 	case 3:
-		return ctx.name([]byte("v")) + " <> " + ctx.value(S(pick(g.r, vVals)))
+		return &Cond{K: "cmp", Op: "<>", L: pathOp("v"), R: valOp(S(pick(g.r, vVals)))}
 	case 4:
-		return ctx.name([]byte("n1")) + " " + pick(g.r, []string{"<", ">", "<=", ">="}) + " " + ctx.value(AV{T: "N", V: []byte(pick(g.r, simpleNumerals))})
+		return &Cond{K: "cmp", Op: pick(g.r, []string{"<", ">", "<=", ">="}), L: pathOp("n1"), R: valOp(num())}
 	case 5:
-		return "attribute_exists(" + ctx.name([]byte("g")) + ") AND " + ctx.name([]byte("v")) + " IN (" + ctx.value(S(pick(g.r, vVals))) + ", " + ctx.value(S(pick(g.r, vVals))) + ")"
+		return &Cond{K: "and", A: &Cond{K: "fn", Fn: "attribute_exists", Args: []Operand{*pathOp("g")}},
+			B: &Cond{K: "in", L: pathOp("v"), Ins: []Operand{*valOp(S(pick(g.r, vVals))), *valOp(S(pick(g.r, vVals)))}}}
 	case 6:
-		return "NOT " + ctx.name([]byte("v")) + " = " + ctx.value(S(pick(g.r, vVals))) + " OR attribute_not_exists(" + ctx.name([]byte("n1")) + ")"
+		return &Cond{K: "or", A: &Cond{K: "not", A: &Cond{K: "cmp", Op: "=", L: pathOp("v"), R: valOp(S(pick(g.r, vVals)))}},
+			B: &Cond{K: "fn", Fn: "attribute_not_exists", Args: []Operand{*pathOp("n1")}}}
 	default:
-		return "begins_with(" + ctx.name([]byte("v")) + ", " + ctx.value(S(pick(g.r, []string{"", "1", "2"}))) + ")"
+		return &Cond{K: "fn", Fn: "begins_with", Args: []Operand{*pathOp("v"), *valOp(S(pick(g.r, []string{"", "1", "2"})))}}
 	}
 }
 
@@ -299,7 +330,8 @@ func (g *HistGen) maybeCond(t *TableSpec, op *Op) {
 				ctx.Values[":x"] = S("1")
 			}
 		} else {
-			c = g.condFor(t, ctx)
+			op.CondTree = g.condTree(t)
+			c = ctx.Print(op.CondTree, 0)
 		}
 		h := HexS(c)
 		op.Cond = &h
@@ -442,7 +474,9 @@ func (g *HistGen) variant(e string) string {
 	return e
 }
 
-func (g *HistGen) searchOp(kind string) *Op {
+func (g *HistGen) searchOp(kind string) *Op { return g.searchOpX(kind, false) }
+
+func (g *HistGen) searchOpX(kind string, forceScan bool) *Op {
 	t := g.pickTable()
 	op := &Op{Op: kind, Table: HexS(t.Name), Forward: true, MaxPages: 40}
 	op.pkAttrs = []string{t.Hash[0]}
@@ -459,7 +493,7 @@ func (g *HistGen) searchOp(kind string) *Op {
 		op.Index = "nosuchindex"
 	}
 	ctx := NewExprCtx(g.r)
-	isScan := g.r.Chance(40)
+	isScan := g.r.Chance(40) || forceScan
 	if kind == "query" || kind == "pages" {
 		op.Scan = isScan
 	}
@@ -469,38 +503,44 @@ func (g *HistGen) searchOp(kind string) *Op {
 		if string(op.Index) != "" && op.Index != "nosuchindex" {
 			pool = gVals
 		}
-		kc := ctx.name([]byte(hash[0])) + " = " + ctx.value(g.keyVal(hash[1], pool))
+		keyTree := &Cond{K: "cmp", Op: "=", L: pathOp(hash[0]), R: valOp(g.keyVal(hash[1], pool))}
 		if rng != nil && g.r.Chance(55) {
-			rv := func() string { return ctx.value(g.keyVal(rng[1], rangeVals)) }
-			rn := ctx.name([]byte(rng[0]))
+			rv := func() *Operand { return valOp(g.keyVal(rng[1], rangeVals)) }
+			rn := pathOp(rng[0])
+			var rc *Cond
 			switch g.r.Intn(7) {
 			case 0:
-				kc += " AND " + rn + " = " + rv()
+				rc = &Cond{K: "cmp", Op: "=", L: rn, R: rv()}
 			case 1:
-				kc += " AND " + rn + " < " + rv()
+				rc = &Cond{K: "cmp", Op: "<", L: rn, R: rv()}
 			case 2:
-				kc += " AND " + rn + " <= " + rv()
+				rc = &Cond{K: "cmp", Op: "<=", L: rn, R: rv()}
 			case 3:
-				kc += " AND " + rn + " > " + rv()
+				rc = &Cond{K: "cmp", Op: ">", L: rn, R: rv()}
 			case 4:
-				kc += " AND " + rn + " >= " + rv()
+				rc = &Cond{K: "cmp", Op: ">=", L: rn, R: rv()}
 			case 5:
-				kc += " AND " + rn + " BETWEEN " + rv() + " AND " + rv()
+				rc = &Cond{K: "between", L: rn, R: rv(), X: rv()}
 			default:
 				if rng[1] == "N" {
-					kc += " AND " + rn + " >= " + rv()
+					rc = &Cond{K: "cmp", Op: ">=", L: rn, R: rv()}
 				} else {
-					kc += " AND begins_with(" + rn + ", " + ctx.value(AV{T: rng[1], V: []byte(pick(g.r, []string{"", "a", "b", "b."}))}) + ")"
+					rc = &Cond{K: "fn", Fn: "begins_with", Args: []Operand{*rn, *valOp(AV{T: rng[1], V: []byte(pick(g.r, []string{"", "a", "b", "b."}))})}}
 				}
 			}
+			keyTree = &Cond{K: "and", A: keyTree, B: rc}
 		}
+		op.KeyTree = keyTree
+		kc := ctx.Print(keyTree, 0)
 		if g.native && len(g.regs) > 0 && g.r.Chance(50) {
 			kc = g.variant(pick(g.r, g.regs))
+			op.KeyTree = nil
 			if strings.Contains(kc, ":x") {
 				ctx.Values[":x"] = S("1")
 			}
 		}
 		if g.r.Chance(g.p.BadPct) {
+			op.KeyTree = nil
 			kc = pick(g.r, garbageExprs)
 			if strings.Contains(kc, ":x") {
 				ctx.Values[":x"] = S("1")
@@ -509,8 +549,10 @@ func (g *HistGen) searchOp(kind string) *Op {
 		op.KeyCond = HexS(kc)
 	}
 	if g.r.Chance(40) {
-		f := g.condFor(t, ctx)
+		op.FilterTree = g.condTree(t)
+		f := ctx.Print(op.FilterTree, 0)
 		if g.native && len(g.regs) > 0 && g.r.Chance(50) {
+			op.FilterTree = nil
 			f = g.variant(pick(g.r, g.regs))
 			if strings.Contains(f, ":x") {
 				ctx.Values[":x"] = S("1")
@@ -735,9 +777,7 @@ func (g *HistGen) Gen() []*Op {
 		case 4:
 			g.genQuery()
 		case 5:
-			op := g.searchOp("query")
-			op.Scan, op.KeyCond, op.Forward = true, "", true
-			g.ops = append(g.ops, op)
+			g.ops = append(g.ops, g.searchOpX("query", true))
 		case 6:
 			g.genPages()
 		case 7:
